@@ -50,21 +50,22 @@ def cfg_trace_cro(maxmol):
             "CHECK_DEADLOCK FALSE\n" % maxmol)
 
 
-def cfg_mc(maxmol, maxsol, maxbelow, tail):
-    return ("SPECIFICATION CSpec\nCONSTANTS\n  MaxE = 2\n  MaxMol = %d\n  MaxSol = %d\n  MaxBelow = %d\nVIEW McView\nCONSTRAINT Bounded\n%s"
-            "CHECK_DEADLOCK FALSE\n" % (maxmol, maxsol, maxbelow, tail))
+def cfg_mc(maxmol, maxsol, maxbelow, tail, constraint="Bounded"):
+    return ("SPECIFICATION CSpec\nCONSTANTS\n  MaxE = 2\n  MaxMol = %d\n  MaxSol = %d\n  MaxBelow = %d\nVIEW McView\nCONSTRAINT %s\n%s"
+            "CHECK_DEADLOCK FALSE\n" % (maxmol, maxsol, maxbelow, constraint, tail))
 
 
 def prepared(ctx):
     """Prepared states: (B) every (state, reaction) pair of the bounded model, (C) random integer-energy states."""
     q = ctx.quick
     # quick: the 2-molecule model with up to two distinct solutions and one population underneath; thorough: that one, and
-    # the 3-molecule model on the minimal stack with everybody holding the same solution (different objective values)
-    exports = [("export-cro", 2, 2, 1)] + ([] if q else [("export-cro3", 3, 1, 0)])
+    # the 3-molecule model on the minimal stack with everybody holding the same solution (different objective values),
+    # prepared states within two reactions of an initial state
+    exports = [("export-cro", 2, 2, 1, "Bounded")] + ([] if q else [("export-cro3", 3, 1, 0, "Bounded Shallow")])
     seen, cases = set(), []
     import tour
-    for (name, mm, ms, mb) in exports:
-        ex = ctx.tlc_mc("MC_Cro", cfg_mc(mm, ms, mb, "ACTION_CONSTRAINT PrintEdge\n"), name, workers=1, timeout=3000)
+    for (name, mm, ms, mb, con) in exports:
+        ex = ctx.tlc_mc("MC_Cro", cfg_mc(mm, ms, mb, "ACTION_CONSTRAINT PrintEdge\n", con), name, workers=1, timeout=3000)
         for e in tour.parse_edges(ex["out"]):
             key = json.dumps([e["from"], e["act"]], sort_keys=True)
             if key not in seen:
@@ -83,8 +84,8 @@ def prepared(ctx):
                                   for k in range(len(f["pe"])))
     if not any(c["from"]["below"] > 0 for c in cases) or not any(noisy_twin(c) for c in cases):
         raise vlib.ToolError("vacuous export: no populations underneath / no equal solutions with different objective values")
-    # (quick: every eighth pair of the 2-molecule model; thorough: every tenth pair of the 3-molecule model)
-    cases = cases[ctx.seed % 8::8] if q else cases[ctx.seed % 10::10]
+    # (quick: every eighth pair of the 2-molecule model; thorough: the same of both models)
+    cases = cases[ctx.seed % 8::8]
     cpath = os.path.join(ctx.work, "cro.cases.ndjson")
     with open(cpath, "w") as f:
         for c in cases:
@@ -94,18 +95,21 @@ def prepared(ctx):
     ctx.harness("cro", "replay", **{"in": cpath, "out": tr, "seed": ctx.seed, "seeds": 2})
     ctx.validate("Trace_Cro", cfg_trace_cro(99), tr, "cro-enum", CRO_DESCRIBE, {"driver": "cro"}, timeout=3000)
     tr = os.path.join(ctx.work, "cro-random.trace.ndjson")
-    ctx.harness("cro", "random", out=tr, seed=ctx.seed, n=6000 if q else 60000, maxe=40 if q else 120)
+    ctx.harness("cro", "random", out=tr, seed=ctx.seed, n=6000 if q else 40000, maxe=40 if q else 120)
     ctx.validate("Trace_Cro", cfg_trace_cro(99), tr, "cro-random", CRO_DESCRIBE, {"driver": "cro"}, timeout=3000)
 
 
 def run(ctx):
     q = ctx.quick
     prepared(ctx)
-    ctx.tlc_mc("MC_Cro", cfg_mc(2 if q else 3, 2, 1, "INVARIANT NonNegative Aligned\nPROPERTY Conserved ConsumesTwo Locality\n"), "mc-cro",
-               workers=4 if q else 10, timeout=3000)
+    props = "INVARIANT NonNegative Aligned\nPROPERTY Conserved ConsumesTwo Locality\n"
+    ctx.tlc_mc("MC_Cro", cfg_mc(2, 2, 1, props), "mc-cro", workers=4, timeout=3000)
+    if not q:
+        # three molecules: two distinct solutions on the minimal stack
+        ctx.tlc_mc("MC_Cro", cfg_mc(3, 2, 0, props), "mc-cro3", workers=10, timeout=3000)
     runlib.run_templates(ctx, ["C20"], seeds=list(range(ctx.seed, ctx.seed + (4 if q else 12))),
                          iters=[0, 3, 20, 60] if q else [3, 20, 60, 200], templates=["real_cro"], quick_grid=False,
-                         more_specs=templates_grid.cro_under_specs(q, [ctx.seed, ctx.seed + 1] if q else list(range(ctx.seed, ctx.seed + 6)),
+                         more_specs=templates_grid.cro_under_specs(q, [ctx.seed, ctx.seed + 1] if q else list(range(ctx.seed, ctx.seed + 4)),
                                                                    [3, 40] if q else [3, 40, 150]))
     return ctx.finish(RULE)
 
